@@ -143,6 +143,26 @@ pub struct MixedList {
     pub items: Vec<Choice>,
 }
 
+/// `$value` list whose text choice is a TUPLE variant (written and read as an xs:list); never two
+/// adjacent text items
+#[derive(Serialize, Deserialize, PartialEq, Debug, Clone)]
+pub enum TChoice {
+    E(u8),
+    S {
+        #[serde(rename = "@y")]
+        y: String,
+    },
+    #[serde(rename = "$text")]
+    T(u16, i8),
+}
+#[derive(Serialize, Deserialize, PartialEq, Debug, Clone)]
+pub struct MixedTuples {
+    #[serde(rename = "@k")]
+    pub k: u8,
+    #[serde(rename = "$value", default)]
+    pub items: Vec<TChoice>,
+}
+
 #[derive(Serialize, Deserialize, PartialEq, Debug, Clone)]
 pub enum Tag {
     A,
@@ -337,6 +357,7 @@ family! {
     TextBool(TextBool),
     ValueString(ValueString),
     Rows(Rows),
+    MixedTuples(MixedTuples),
 }
 
 // ---------------------------------------------------------------------------------------------
@@ -554,6 +575,18 @@ pub fn val_of(ty: Ty) -> BoxedStrategy<Val> {
         Ty::Tree => tree(4).prop_map(Val::Tree).boxed(),
         Ty::TextBool => any::<bool>().prop_map(|text| Val::TextBool(TextBool { text })).boxed(),
         Ty::ValueString => (any::<u8>(), elem_string()).prop_map(|(k, v)| Val::ValueString(ValueString { k, v })).boxed(),
+        Ty::MixedTuples => (any::<u8>(), prop::collection::vec(prop_oneof![2 => any::<u8>().prop_map(TChoice::E), 1 => any_string().prop_map(|y| TChoice::S { y }), 2 => (any::<u16>(), any::<i8>()).prop_map(|(a, b)| TChoice::T(a, b))], 0..7))
+            .prop_map(|(k, v)| {
+                let mut items: Vec<TChoice> = vec![];
+                for c in v {
+                    if matches!(c, TChoice::T(..)) && matches!(items.last(), Some(TChoice::T(..))) {
+                        continue;
+                    }
+                    items.push(c);
+                }
+                Val::MixedTuples(MixedTuples { k, items })
+            })
+            .boxed(),
         Ty::Rows => (list((any::<u8>(), inner(), prop::option::of(inner())).prop_map(|(id, cell, opt)| Row { id, cell, opt })), inner()).prop_map(|(row, last)| Val::Rows(Rows { row, last })).boxed(),
     }
 }
